@@ -250,6 +250,10 @@ where
                 .write_throughput
                 .map(|v| RateLimiter::new(v.get() as _));
             for piece in pieces {
+                // Entries advised in-memory-only never reach the disk, at close either (same rule as `send`).
+                if piece.properties().location() == Location::InMem {
+                    continue;
+                }
                 let bytes = store.entry_estimated_size(piece.key(), piece.value());
                 if let Some(throttler) = &throttler {
                     let wait = throttler.consume(bytes as _);
